@@ -596,3 +596,164 @@ V('C10-collector-state-rebound', 'C10', 'pylatexenc/latexnodes/parsers/_generaln
   "        pos_start = token_reader.cur_pos()\n        parsing_state = parsing_state.sub_context(in_math_mode=False)\n\n        collector =", 'R10f')
 V('C10-benign', 'C10', 'pylatexenc/latexnodes/parsers/_math.py',
   "        pos_end = token_reader.cur_pos()\n", "        pos_end = token_reader.cur_pos()  # after the closing delimiter\n", 'SILENT')
+
+
+# ----------------------------------------------------------------------- C05
+GN = 'pylatexenc/latexnodes/parsers/_generalnodes.py'
+VA = 'pylatexenc/macrospec/_pyltxenc2_argparsers/_verbatimargsparser.py'
+V('C05-revert-D3', 'C05', EX,
+  """                msg=("Unexpected math mode delimiter ‘{}’, was expecting a LaTeX expression"
+                     .format(tok.arg)),""",
+  """                "Unexpected math mode delimiter ‘{}’, was expecting a LaTeX expression"
+                .format(tok.arg),""", 'G1', 'D3: message bound to recovery_nodes -> TypeError')
+V('C05-revert-D4', 'C05', VB,
+  "                    pos=verbatim_info.original_pos,\n                    error_type_info={\n                        'what': 'verbatim_expected_opening_delimiter_not_found',",
+  "                    pos=pos,\n                    error_type_info={\n                        'what': 'verbatim_expected_opening_delimiter_not_found',", 'G2',
+  'D4: undefined name pos')
+V('C05-revert-D5', 'C05', VA,
+  """            while pos < len(w.s) and w.s[pos].isspace():
+                pos += 1
+            if pos >= len(w.s):
+                raise latexnodes_exctypes.LatexWalkerParseError(
+                    s=w.s,
+                    pos=pos,
+                    msg=r"Missing argument to \\verb command"
+                )
+""",
+  """            while w.s[pos].isspace():
+                pos += 1
+                if pos >= len(w.s):
+                    raise latexnodes_exctypes.LatexWalkerParseError(
+                        s=w.s,
+                        pos=pos,
+                        msg=r"Missing argument to \\verb command"
+                    )
+""", 'G5', 'D5: index before bounds check')
+V('C05-revert-D6', 'C05', GN,
+  """            error_pos = collector.pos_start()
+            if error_pos is None:
+                # nothing was collected, report the position where we started
+                error_pos = pos_start
+            exc = LatexWalkerNodesParseError(
+                msg=message,
+                pos=error_pos,""",
+  """            exc = LatexWalkerNodesParseError(
+                msg=message,
+                pos=collector.pos_start(),""", 'G8', 'D6: error position may be None')
+V('C05-revert-D18', 'C05', NC,
+  """            try:
+                self.finalize()
+            except LatexNodesCollector.ReachedStoppingCondition as e:
+                # flushing the last pending chars made the node list meet its
+                # stopping condition.  We're done anyway; don't let the
+                # internal control-flow exception escape.
+                self._stop_condition_stop_data = e.stop_data
+""",
+  """            self.finalize()
+""", 'R05a', 'D18: internal stop exception escapes from the finally clause')
+V('C05-revert-D20', 'C05', EX,
+  "        if self.single_token_requiring_arg_is_error and spec is not None:",
+  "        if self.single_token_requiring_arg_is_error:", 'G4', 'D20: spec lookup result may be None')
+V('C05-revert-D21', 'C05', SA2,
+  "            elif self.contents_parser_info.delimited_expression_parser.keep_empty_parts:",
+  "            elif self.keep_empty_parts:", 'G3', 'D21: attribute of another class read through self')
+V('C05-revert-D22', 'C05', VB,
+  """        if verbatim_string.endswith(end_environment_code):
+            verbatim_string = verbatim_string[:-len(end_environment_code)]
+""",
+  """        assert( verbatim_string.endswith(end_environment_code) )
+
+        verbatim_string = verbatim_string[:-len(end_environment_code)]
+""", 'R05a', 'D22: input-dependent assert')
+V('C05-new-valueerror', 'C05', TRF,
+  "        c = s[pos+1] # next char is necessarily part of macro\n",
+  "        c = s[pos+1] # next char is necessarily part of macro\n        if c == '\\0':\n            raise ValueError('NUL character in macro name')\n", 'R05a')
+V('C05-eos-handler-removed', 'C05', NC,
+  """        except LatexNodesCollector.ReachedEndOfStream as e:
+            # all good!  We reached the end of the input.  Note that any final
+            # space has already been included into a chars node in the nodelist.
+            self._reached_end_of_stream = True
+            logger.debug("nodes collector process_tokens() reached end of stream")
+            return
+""", "", 'R05a')
+V('C05-stray-brace-accepted', 'C05', NC,
+  "        if tok.tok == 'brace_close':\n            raise LatexWalkerNodesParseError(",
+  "        if tok.tok == 'brace_close' and self.stop_token_condition is None:\n            raise LatexWalkerNodesParseError(", 'R05e')
+V('C05-benign', 'C05', NC,
+  "        # check for tokens that are illegal in this context\n", "        # check for tokens which are illegal in this context\n", 'SILENT')
+
+
+# ----------------------------------------------------------------------- C06
+V('C06-revert-D1-store-none', 'C06', WK,
+  """                if self.latex_walker.check_tolerant_parsing_ignore_error(e) is None:
+                    # we're trying to recover from this error (tolerant parsing mode)
+                    self.recovery_from_exception = e""",
+  """                e = self.latex_walker.check_tolerant_parsing_ignore_error(e)
+                if e is None:
+                    # we're trying to recover from this error (tolerant parsing mode)
+                    self.recovery_from_exception = e""", 'R06a', 'D1a: None stored as recovery exception')
+V('C06-revert-D1-missing-method', 'C06', WK,
+  "                pc.perform_recovery_nodes_and_parsing_state_delta(the_token_reader)",
+  "                pc.perform_recovery_nodes_info(the_token_reader)", 'R06a', 'D1b: non-existent method')
+V('C06-revert-D2', 'C06', TRF,
+  """                    arg=s[pos],
+                    pos=pos,
+                    pos_end=pos+1,
+                    pre_space=pre_space
+                ),
+                recovery_token_at_pos=pos+1""",
+  """                    arg='',
+                    pos=pos,
+                    pos_end=pos,
+                    pre_space=pre_space
+                ),
+                recovery_token_at_pos=len(s)""", 'R06b', 'D2: recovery makes no progress')
+V('C06-revert-D17', 'C06', EX,
+  "            tok = e.recovery_token_placeholder\n            token_reader.move_to_pos_chars(e.recovery_token_at_pos)",
+  "            tok = exc.recovery_token_placeholder\n            token_reader.move_to_pos_chars(exc.recovery_token_at_pos)", 'G4',
+  'D17: dereference of the None result of the tolerance check')
+V('C06-mode-read-in-normal-flow', 'C06', NC,
+  "        if tok.tok == 'char':\n            self.push_pending_chars(",
+  "        if tok.tok == 'char' or (latex_walker.tolerant_parsing and tok.tok == 'specials' and False):\n            self.push_pending_chars(", 'R06e')
+V('C06-unmet-stop-without-nodes', 'C06', GN,
+  "                recovery_nodes=collected_nodelist,\n", "                recovery_nodes=None,\n", 'R06d')
+V('C06-parse-error-not-suppressed', 'C06', WK,
+  "            if exc_value is not None and isinstance(exc_value, LatexWalkerParseError):",
+  "            if exc_value is not None and isinstance(exc_value, LatexWalkerNodesParseError):", 'R06a')
+V('C06-benign', 'C06', WK,
+  "                    return True # error was handled\n", "                    return True # the error was handled\n", 'SILENT')
+
+# ----------------------------------------------------------------------- C07
+V('C07-revert-D15-href', 'C07', L2TD,
+  """         '{} <{}>'.format(l2tobj.node_arg_to_text(n, 1),
+                          l2tobj.node_arg_to_text(n, 0))),""",
+  """         '{} <{}>'.format(l2tobj.nodelist_to_text([n.nodeargd.argnlist[1]]),
+                          l2tobj.nodelist_to_text([n.nodeargd.argnlist[0]]))),""", 'G7', 'D15: constant index into argnlist')
+V('C07-revert-D15-matrix', 'C07', L2T,
+  """    all_char_widths = [ len(x)  for row in state.matrix_rows  for x in row ]
+    max_char_width = max(all_char_widths) if all_char_widths else 0 # empty matrix""",
+  """    max_char_width = max( ( len(x)  for row in state.matrix_rows  for x in row ) )""", 'G6', 'D15: max() of nothing')
+V('C07-revert-D15-input', 'C07', L2T,
+  """            if not n.nodeargs:
+                # no file name at all (e.g. \\input given as a single-token
+                # argument of another macro)
+                return ''
+""", "", 'G7', 'D15: n.nodeargs[0] without arguments')
+V('C07-revert-D19', 'C07', L2T,
+  "                (node.nodeargs is None or len(node.nodeargs) == 0))",
+  "                len(node.nodeargs) == 0)", '*', 'D19: len() of a None legacy view')
+V('C07-math-mode-arm-missing', 'C07', L2T,
+  "        if self.math_mode not in ('text', 'with-delimiters', 'verbatim', 'remove'):",
+  "        if self.math_mode not in ('text', 'with-delimiters', 'verbatim', 'remove', 'keep'):", 'R07c')
+V('C07-policy-key-missing', 'C07', L2T,
+  """    'macros': {
+        'between-macro-and-chars': True,
+        'between-latex-constructs': True,
+        'after-comment': False,""",
+  """    'macros': {
+        'between-macro-and-chars': True,
+        'between-latex-constructs': True,""", 'R07c')
+V('C07-callable-extra-param', 'C07', L2TD,
+  "def _format_uebung(n, l2tobj):", "def _format_uebung(n, l2tobj, numbering):", 'R07f')
+V('C07-benign', 'C07', L2T,
+  "        # get macro behavior definition.\n", "        # get the macro behavior definition.\n", 'SILENT')
